@@ -1450,6 +1450,35 @@ pub mod gen {
                 2 => ops.push(Op::new("disable")),
                 3 => ops.push(Op::new("max").u("n", *rng.pick(&[0u64, 1, 1, 2, 2, 3, 254, 255]))),
                 4 | 5 => ops.push(cont(rng.below(4) as usize, *rng.pick(&[3usize, 7, 10, 20, 100, 4097, 5000]))),
+                6 if rng.chance(1, 3) => {
+                    // a fragmented PDU is started and abandoned; the label memories are emptied (frame boundary or a
+                    // broadcast packet); the same PDU is sent again on the same frag id, this time with another label
+                    // (often an explicit re-use that nothing precedes); then it is continued to its end
+                    let lab0 = *rng.pick(&alphabet[..4]);
+                    let len = rng.usize_in(30, 120);
+                    let seed = rng.next();
+                    let pt = ptype(rng);
+                    let b0 = 13 + rng.usize_in(4, 20);
+                    fid = fid.wrapping_add(1);
+                    if rng.chance(1, 2) {
+                        ops.push(submit(3, rng.next(), pt, &lab0, fid.wrapping_add(100), 4097, &[]));
+                    }
+                    ops.push(submit(len, seed, pt, &lab0, fid, b0, &[]));
+                    if rng.chance(1, 2) {
+                        ops.push(Op::new("frame"));
+                    } else {
+                        ops.push(submit(2, rng.next(), pt, &Lab::Bcast, fid.wrapping_add(101), 4097, &[]));
+                    }
+                    let lab1 = *rng.pick(&[Lab::ReUse, Lab::ReUse, Lab::Bcast, L3B, L6B]);
+                    // same first-fragment payload: header sizes differ with the label, adjust the buffer
+                    // (the first label may have been substituted, i.e. written with length 0: try both alignments)
+                    let b1 = if rng.chance(1, 2) { b0 + lab1.len() } else { (b0 + lab1.len()).saturating_sub(lab0.len()).max(7) };
+                    ops.push(submit(len, seed, pt, &lab1, fid, b1, &[]));
+                    let nfl = rng.below(4) as usize;
+                    ops.push(cont(nfl, 4097));
+                    ops.push(cont(0, 4097));
+                    ops.push(cont(1, 4097));
+                }
                 _ => {
                     let lab = if rng.chance(3, 5) { fav } else { *rng.pick(&alphabet) };
                     let len = *rng.pick(&[0usize, 1, 5, 20, 100, 1000]);
